@@ -331,13 +331,16 @@ type c08AssocCase struct {
 func c08GenAssocCase(rng *rand.Rand, seed int64, n int) c08AssocCase {
 	c := c08AssocCase{Seed: seed, N: n}
 	c.Rel = c08Rels8[rng.Intn(len(c08Rels8))].Name
-	c.Op = []string{"find", "find-cond", "count", "clear", "clear", "replace-new", "replace-keep", "delete", "delete", "append"}[rng.Intn(10)]
+	c.Op = []string{"find", "find-cond", "count", "clear", "clear", "replace-new", "replace-keep", "delete", "delete", "append", "preload", "joins", "innerjoins"}[rng.Intn(13)]
+	if c.Op == "joins" || c.Op == "innerjoins" {
+		c.Rel = []string{"Den", "Chip", "Badge"}[rng.Intn(3)] // association joins: to-one relations
+	}
 	if rng.Intn(2) == 0 {
 		c.DBUn = []string{"before-model", "before-model", "after-model", "session"}[rng.Intn(4)]
 	}
 	c.AssocUn = rng.Intn(2) == 0
 	c.Owners = []uint{uint(1 + rng.Intn(3))}
-	if rng.Intn(4) == 0 && (c.Op == "find" || c.Op == "count" || c.Op == "clear" || c.Op == "delete") {
+	if rng.Intn(4) == 0 && (c.Op == "find" || c.Op == "count" || c.Op == "clear" || c.Op == "delete" || c.Op == "preload" || c.Op == "joins" || c.Op == "innerjoins") {
 		c.Owners = []uint{1, uint(2 + rng.Intn(2))}
 	}
 	c.Ctx = []string{"tx", "tx", "tx", "nested-tx", "prepare", "propagate"}[rng.Intn(6)]
@@ -431,7 +434,9 @@ func c08AssocOne(r *Result, db *gorm.DB, c c08AssocCase, sub int64) {
 	if c.Ctx == "prepare" {
 		h = tx.Session(&gorm.Session{PrepareStmt: true})
 	}
+	var loaded [][2]uint // Preload / Joins: (owner, loaded target id | 0)
 	run := func(h *gorm.DB) (err error, ids []uint, cnt int64, detail string) {
+		loaded = nil
 		switch c.DBUn {
 		case "before-model":
 			h = h.Unscoped().Model(model)
@@ -441,6 +446,37 @@ func c08AssocOne(r *Result, db *gorm.DB, c c08AssocCase, sub int64) {
 			h = h.Unscoped().Session(&gorm.Session{}).Model(model)
 		default:
 			h = h.Model(model)
+		}
+		if c.Op == "preload" || c.Op == "joins" || c.Op == "innerjoins" {
+			// the same relations loaded by Preload / association Joins from the owners
+			var os []A8Owner
+			q := h.Where("`a8_owners`.`id` IN ?", c.Owners)
+			switch c.Op {
+			case "preload":
+				q = q.Preload(c.Rel)
+			case "joins":
+				q = q.Joins(c.Rel)
+			default:
+				q = q.InnerJoins(c.Rel)
+			}
+			err = q.Find(&os).Error
+			for i := range os {
+				f := reflect.Indirect(reflect.ValueOf(&os[i]).Elem().FieldByName(c.Rel))
+				switch {
+				case !f.IsValid():
+					loaded = append(loaded, [2]uint{os[i].ID, 0}) // nil pointer: nothing loaded
+				case f.Kind() == reflect.Slice:
+					for j := 0; j < f.Len(); j++ {
+						loaded = append(loaded, [2]uint{os[i].ID, uint(f.Index(j).FieldByName("ID").Uint())})
+					}
+					if f.Len() == 0 {
+						loaded = append(loaded, [2]uint{os[i].ID, 0})
+					}
+				default:
+					loaded = append(loaded, [2]uint{os[i].ID, uint(f.FieldByName("ID").Uint())})
+				}
+			}
+			return
 		}
 		a := h.Association(c.Rel)
 		if c.AssocUn {
@@ -553,6 +589,76 @@ func c08AssocOne(r *Result, db *gorm.DB, c c08AssocCase, sub int64) {
 	afterByID := map[uint]c08TRow{}
 	for _, t := range after {
 		afterByID[t.ID] = t
+	}
+
+	// ---- Preload / Joins of the relation
+	if c.Op == "preload" || c.Op == "joins" || c.Op == "innerjoins" {
+		want := map[[2]uint]bool{}
+		has := map[uint]bool{}
+		if rel.Kind == "m2m" {
+			for _, l := range linksBefore {
+				if isOwner(l.Owner) && visible(tgt{byID[l.Rel], l.Live}) {
+					want[[2]uint{l.Owner, l.Rel}], has[l.Owner] = true, true
+				}
+			}
+		} else {
+			for _, t := range targets {
+				if visible(t) {
+					want[[2]uint{t.row.Owner, t.row.ID}], has[t.row.Owner] = true, true
+				}
+			}
+		}
+		got := map[[2]uint]bool{}
+		for _, p := range loaded {
+			if p[1] != 0 {
+				got[p] = true
+			}
+		}
+		what := "without Unscoped a preloaded / joined relation shows exactly the live rows"
+		if un {
+			what = "with Unscoped the marked rows of a preloaded / joined relation are visible again"
+		}
+		if c.Op == "preload" && rel.Kind == "hasone" {
+			// a has-one field holds ONE of the visible rows: which one is not this property's subject
+			for p := range got {
+				if !want[p] {
+					bad("reads", fmt.Sprint(p), fmt.Sprint(want), what+" ("+c.Op+")")
+					return
+				}
+			}
+			for _, o := range c.Owners {
+				n := 0
+				for p := range got {
+					if p[0] == o {
+						n++
+					}
+				}
+				if has[o] != (n > 0) {
+					bad("reads", fmt.Sprintf("owner %d: loaded=%v", o, n > 0), fmt.Sprintf("loaded=%v", has[o]), what+" ("+c.Op+")")
+					return
+				}
+			}
+			return
+		}
+		if fmt.Sprint(len(got)) != fmt.Sprint(len(want)) {
+			bad("reads", fmt.Sprint(got), fmt.Sprint(want), what+" ("+c.Op+")")
+			return
+		}
+		for p := range want {
+			if !got[p] {
+				bad("reads", fmt.Sprint(got), fmt.Sprint(want), what+" ("+c.Op+")")
+				return
+			}
+		}
+		if c.Op == "innerjoins" {
+			for _, p := range loaded {
+				if p[1] == 0 {
+					bad("reads", fmt.Sprintf("owner %d returned without a related row", p[0]), "owners with a visible related row only", what+" (InnerJoins)")
+					return
+				}
+			}
+		}
+		return
 	}
 
 	// ---- reads
